@@ -111,6 +111,12 @@ class Check:
     def finish(self, explanation, trusted_base=None, assumptions=None, exhaustive=None):
         wall = time.time() - self.t0
         dump_cover(self.pid)
+        from . import interp as _interp
+        if _interp.COVER:
+            one = sorted(k for k, v in _interp.COVER.items() if len(v) == 1)
+            self.extra["branch_census"] = {
+                "conditions_evaluated_concretely": len(_interp.COVER), "both_outcomes_seen": len(_interp.COVER) - len(one), "one_outcome_only": len(one),
+                "note": "one-sided conditions are else-if tails implied by earlier tests, configuration this check fixes, or error paths; tools/branch_census.py lists them across checks (triage in DESIGN.md section 6)"}
         for rid, r in self.rules.items():
             if r["found"] < r["floor"]:
                 self.broken.append("rule %s matched %d instances, floor is %d (confirmed by hand on the pinned tree): "
@@ -130,7 +136,7 @@ class Check:
         replay = None
         if self.viol:
             rc = 1
-            rdir = os.path.join(VERIF, "replay") if ir.REPO == "/repo" else os.path.join(VERIF, ".cache", "replay-scratch")
+            rdir = os.path.join(VERIF, "replay") if (ir.REPO == "/repo" and not os.environ.get("GMG_EVIDENCE_SCRATCH")) else os.path.join(VERIF, ".cache", "replay-scratch")
             os.makedirs(rdir, exist_ok=True)
             replay = os.path.join(rdir, "%s-%s.json" % (self.pid, self.tier))
             with open(replay, "w") as fh:
@@ -186,7 +192,7 @@ class Check:
             "wall_s": round(wall, 3),
             "violations": len(self.viol),
         }
-        evdir = os.path.join(VERIF, "evidence") if ir.REPO == "/repo" else os.path.join(VERIF, ".cache", "evidence-scratch")
+        evdir = os.path.join(VERIF, "evidence") if (ir.REPO == "/repo" and not os.environ.get("GMG_EVIDENCE_SCRATCH")) else os.path.join(VERIF, ".cache", "evidence-scratch")
         os.makedirs(evdir, exist_ok=True)
         with open(os.path.join(evdir, "%s.json" % self.pid), "w") as fh:
             json.dump(ev, fh, indent=1, default=str)
